@@ -47,6 +47,8 @@
 #include "torrent/data/file_list.h"
 #include "torrent/data/transfer_list.h"
 #include "torrent/exceptions.h"
+#include "torrent/peer/connection_list.h"
+#include "torrent/peer/peer.h"
 
 using namespace ltv;
 
@@ -103,13 +105,28 @@ struct Case {
   explicit Case(Session& s) : S(s) {}
 };
 
+// Session::find_connection keys on the remote TCP port only; scripted peers use different source
+// addresses, whose ephemeral ports can coincide, so match address AND port here.
+torrent::PeerConnectionBase* find_conn(Session& S, Torrent* T, int p, uint16_t port) {
+  for (torrent::Peer* pe : *T->dl.connection_list()) {
+    torrent::PeerConnectionBase* pcb = pe->m_ptr();
+    if (pcb->file_descriptor() < 0) continue;
+    sockaddr_in a{};
+    socklen_t n = sizeof a;
+    if (getpeername(pcb->file_descriptor(), (sockaddr*)&a, &n) != 0 || a.sin_family != AF_INET) continue;
+    if (ntohs(a.sin_port) == port && (ntohl(a.sin_addr.s_addr) & 0xff) == (uint32_t)(2 + p)) return pcb;
+  }
+  (void)S;
+  return nullptr;
+}
+
 Ent ent_of(const torrent::BlockTransfer* t) { return Ent{t->piece().index(), t->piece().offset(), t->is_valid(), t->stall()}; }
 
 Snap take_snap(Case& c, int p) {
   Snap s;
   ScriptPeer& sp = c.peer[p];
   if (!sp.connected) return s;
-  torrent::PeerConnectionBase* pcb = c.S.find_connection(c.T, sp.port);
+  torrent::PeerConnectionBase* pcb = find_conn(c.S, c.T, p, sp.port);
   if (pcb == nullptr) return s;
   s.present = true;
   s.unchoked = pcb->m_down_unchoked;
@@ -277,7 +294,7 @@ void after_op(Case& c, const std::string& injected, bool timed) {
   if (getenv("LTV_C04_DEBUG"))
     for (int p = 0; p < 4; p++) {
       if (!c.peer[p].connected) continue;
-      torrent::PeerConnectionBase* pcb = c.S.find_connection(c.T, c.peer[p].port);
+      torrent::PeerConnectionBase* pcb = find_conn(c.S, c.T, p, c.peer[p].port);
       if (pcb == nullptr) continue;
       fprintf(stderr, "[dbg] t=%lld after '%s' p%d: down_choke(choked=%d queued=%d snub=%d) down_int=%d send_int=%d try=%d unch=%d stall=%u\n",
               (long long)(c.S.now_us() / 1000000), injected.c_str(), p, (int)pcb->m_down_choke.choked(), (int)pcb->m_down_choke.queued(),
@@ -354,7 +371,7 @@ bool do_op(Case& c, const std::string& o, std::string& err) {
       err = "ERR:handshake"; return false;
     }
     sp.port = sp.w->local_port();
-    if (c.S.find_connection(c.T, sp.port) == nullptr) {
+    if (find_conn(c.S, c.T, p, sp.port) == nullptr) {
       sp.connected = false; sp.w->close_all();
       if (is_done) { pump_all(c); return true; }
       err = "ERR:noconn"; return false;
